@@ -472,6 +472,35 @@ pub fn exec_line(sess: &mut Session, line: &str) -> String {
                 }
                 hex_of_str(&q.to_string())
             }
+            "deletew" => {
+                // `with()` once per condition
+                let mut q = msi::Delete::from(str_of_hex(toks[2]).unwrap());
+                let n: usize = toks[3].parse().unwrap();
+                let mut pos = 4;
+                for _ in 0..n {
+                    let (e, used) = E::parse(&toks[pos..]).unwrap();
+                    pos += used;
+                    q = q.with(e.to_msi());
+                }
+                hex_of_str(&q.to_string())
+            }
+            "updatew" => {
+                let t = str_of_hex(toks[2]).unwrap();
+                let k: usize = toks[3].parse().unwrap();
+                let mut q = msi::Update::table(t);
+                for i in 0..k {
+                    q = q.set(str_of_hex(toks[4 + 2 * i]).unwrap(), V::parse(toks[5 + 2 * i]).unwrap().to_msi());
+                }
+                let mut pos = 4 + 2 * k;
+                let n: usize = toks[pos].parse().unwrap();
+                pos += 1;
+                for _ in 0..n {
+                    let (e, used) = E::parse(&toks[pos..]).unwrap();
+                    pos += used;
+                    q = q.with(e.to_msi());
+                }
+                hex_of_str(&q.to_string())
+            }
             _ => {
                 let mut q = msi::Delete::from(str_of_hex(toks[2]).unwrap());
                 let (cond, _) = parse_cond(&toks[3..]).unwrap();
@@ -639,6 +668,99 @@ pub fn exec_line(sess: &mut Session, line: &str) -> String {
                     Err(e) => out.push(format!("reopen-err:{}", crate::session::kind_name(&e))),
                 },
                 Err(e) => out.push(format!("close-err:{}", crate::session::kind_name(&e))),
+            }
+            out.join(" ")
+        }
+        "@catalog_limit" => {
+            // fill `_Columns` / `_Validation` (one row per column of every table) to within fewer
+            // rows of the limit than a table of `per` columns needs, then: a create_table one
+            // column too big, one that fits exactly, a one-column table, a drop and another table
+            let per: usize = toks[1].parse().unwrap();
+            let cols = |n: usize| -> Vec<msi::Column> {
+                (0..n).map(|i| {
+                    let name = format!("C{:02}", i + 1);
+                    if i == 0 { msi::Column::build(name).primary_key().int32() } else { msi::Column::build(name).nullable().int16() }
+                }).collect()
+            };
+            let count = |pkg: &mut crate::session::Pkg, t: &str| -> i64 {
+                match pkg.select_rows(msi::Select::table(t)) { Ok(r) => r.len() as i64, Err(_) => -1 }
+            };
+            let names = |pkg: &crate::session::Pkg| -> Vec<String> {
+                let mut v: Vec<String> = pkg.tables().map(|t| t.name().to_string()).collect();
+                v.sort();
+                v
+            };
+            let reopen = |pkg: crate::session::Pkg| -> Result<crate::session::Pkg, String> {
+                let m = pkg.into_inner().map_err(|e| format!("close-err:{}", crate::session::kind_name(&e)))?;
+                msi::Package::open(crate::session::Medium::new(m.snapshot_bytes())).map_err(|e| format!("reopen-err:{}", crate::session::kind_name(&e)))
+            };
+            let mut out: Vec<String> = vec![];
+            let run = |out: &mut Vec<String>| -> Result<(), String> {
+                let medium = crate::session::Medium::new(Vec::new());
+                let mut pkg = msi::Package::create(msi::PackageType::Installer, medium).map_err(|_| "create-err".to_string())?;
+                pkg.create_table("T0000", cols(per)).map_err(|_| "pattern-err".to_string())?;
+                let pat = |pkg: &mut crate::session::Pkg, cat: &str| -> Vec<Vec<msi::Value>> {
+                    pkg.select_rows(msi::Select::table(cat).with(msi::Expr::col("Table").eq(msi::Expr::string("T0000"))))
+                        .unwrap().map(|row| (0..row.len()).map(|i| row[i].clone()).collect()).collect()
+                };
+                let pc = pat(&mut pkg, "_Columns");
+                let pv = pat(&mut pkg, "_Validation");
+                let sofar = count(&mut pkg, "_Columns") as usize;
+                // leave room for fewer than `per` rows (at least one)
+                let bulk = (65536 - sofar - 1) / per;
+                let (mut tr, mut cr, mut vr) = (vec![], vec![], vec![]);
+                for n in 1..=bulk {
+                    let name = format!("T{:04}", n);
+                    tr.push(vec![msi::Value::Str(name.clone())]);
+                    for r in &pc { let mut r = r.clone(); r[0] = msi::Value::Str(name.clone()); cr.push(r); }
+                    for r in &pv { let mut r = r.clone(); r[0] = msi::Value::Str(name.clone()); vr.push(r); }
+                }
+                pkg.insert_rows(msi::Insert::into("_Tables").rows(tr)).map_err(|_| "fill-err".to_string())?;
+                pkg.insert_rows(msi::Insert::into("_Columns").rows(cr)).map_err(|_| "fill-err".to_string())?;
+                pkg.insert_rows(msi::Insert::into("_Validation").rows(vr)).map_err(|_| "fill-err".to_string())?;
+                let mut pkg = reopen(pkg)?;
+                let room = 65536 - count(&mut pkg, "_Columns") as usize;
+                out.push(format!("room={room}"));
+                let before = (names(&pkg), count(&mut pkg, "_Tables"), count(&mut pkg, "_Columns"), count(&mut pkg, "_Validation"));
+                // one column too many
+                let r = pkg.create_table("Over", cols(room + 1));
+                out.push(format!("over:{}", if r.is_ok() { "ok" } else { "err" }));
+                let after = (names(&pkg), count(&mut pkg, "_Tables"), count(&mut pkg, "_Columns"), count(&mut pkg, "_Validation"));
+                out.push(format!("over-unchanged={}", before == after));
+                let mut pkg = reopen(pkg)?;
+                let after2 = (names(&pkg), count(&mut pkg, "_Tables"), count(&mut pkg, "_Columns"), count(&mut pkg, "_Validation"));
+                out.push(format!("over-reopen-unchanged={}", before == after2));
+                // exactly as many columns as there is room for
+                let r = pkg.create_table("Exact", cols(room));
+                out.push(format!("exact:{}", if r.is_ok() { "ok" } else { "err" }));
+                let mut pkg = reopen(pkg)?;
+                out.push(format!("exact-listed={} columns={}", pkg.has_table("Exact"), count(&mut pkg, "_Columns")));
+                // no room at all now
+                let before = (names(&pkg), count(&mut pkg, "_Tables"), count(&mut pkg, "_Columns"), count(&mut pkg, "_Validation"));
+                let r = pkg.create_table("Tiny", cols(1));
+                out.push(format!("tiny:{}", if r.is_ok() { "ok" } else { "err" }));
+                let after = (names(&pkg), count(&mut pkg, "_Tables"), count(&mut pkg, "_Columns"), count(&mut pkg, "_Validation"));
+                out.push(format!("tiny-unchanged={}", before == after));
+                // dropping a table frees room again
+                let r = pkg.drop_table("Exact");
+                out.push(format!("drop:{}", if r.is_ok() { "ok" } else { "err" }));
+                let r = pkg.create_table("Again", cols(room));
+                out.push(format!("again:{}", if r.is_ok() { "ok" } else { "err" }));
+                let mut pkg = reopen(pkg)?;
+                out.push(format!("again-listed={} columns={}", pkg.has_table("Again"), count(&mut pkg, "_Columns")));
+                Ok(())
+            };
+            let res = std::panic::catch_unwind(std::panic::AssertUnwindSafe(|| {
+                let mut o: Vec<String> = vec![];
+                let r = run(&mut o);
+                (o, r)
+            }));
+            match res {
+                Ok((o, r)) => {
+                    out.extend(o);
+                    if let Err(e) = r { out.push(e); }
+                }
+                Err(_) => out.push("panic".into()),
             }
             out.join(" ")
         }
